@@ -13,7 +13,7 @@ RULE = ("refinement of compute_logw_and_logz against an independent extended-pre
         "warm-up batches with different logZ_t (zero-likelihood regions), |log L| up to ~1e6, likelihood shifts; plus checkpoints with synthetic histories (T 1..20, unequal n_t>=1, beta_t in any order, "
         "arbitrary finite logZ_t up to +-1e3, log-likelihoods spanning +-1e6) imported through the simulated file system with load_state; plus permutation and shift laws on the "
         "implementation itself; distinct = configuration/scenario class; non-trivial = at least 3 iterations")
-ASSUMPTIONS = ["reachable histories come from simulated executions; synthetic ones enter only through the durable checkpoint path (load_state)", "RefMIS in 80-bit long double is the oracle; tolerance 1e-8 + 2560 eps (max|logL|+max|logZ_t|)"]
+ASSUMPTIONS = ["reachable histories come from simulated executions; synthetic ones enter only through the durable checkpoint path (load_state)", "RefMIS in 80-bit long double is the oracle; tolerance 1e-8 + 2560 eps (max|logL|+max|logZ_t|), plus N eps (max|logw|+log N) for quantities behind a reduction over all N samples (normaliser, logZ)"]
 
 
 def cases(seed, tier):
